@@ -57,6 +57,11 @@ CHECKS.update({
          "Held on K applications.", "precision changes judged on real-number semantics"),
 })
 
+CHECKS.update({
+ "C15": ("exploration", "every successful exo compile of generated programs x annotation changes (set_precision / set_memory / set_window, text-level annotations at call depth 2, x86 instruction callees, hostile emission shapes) is fed to gcc -c with conversion/qualifier diagnostics as errors, and an independent narrow judge of the four listed inconsistencies flags accepted programs", "gcc-acceptor+annotation-judge", "3/C15",
+         "Held on K compiles / G gcc checks; the judge only flags definite inconsistencies.", "gcc 12 as the standard C compiler; the judge reads declarations only"),
+})
+
 PENDING = {
 }
 
